@@ -4,6 +4,16 @@ import json, os, sys
 ROOT = os.path.dirname(os.path.dirname(os.path.abspath(__file__)))
 
 CHECKS = {
+ "C10": ("fault_enumeration",
+         "property-based workloads on a real host with a filesystem WAL + crash-point enumeration (every byte-length prefix for the byte-level reader; every transaction boundary +-1, frame boundaries, mid-frame and sampled lengths for a fresh host, each with the side-file versions that can coexist) + store-fault injection (FilesystemWalFaultPlan at a generated writing operation); oracle = committed prefix computed by the harness from the documented record framing, acknowledged-facts ledger recorded after every operation, executor counter, idempotence, continuation equivalence with the uninterrupted run",
+         "For generated submit/retry/stage/tick workloads on a TrustedRuntimeHost: recovery of every cut succeeds, runs no rule, returns exactly the transactions wholly below the cut with a Clean tail only at transaction boundaries, restores every fact acknowledged at that prefix (submission ids, outcomes with receipt references, frontier ticks, state roots, hash chains) and nothing later, is idempotent, and the recovered host - after re-issuing volatile staging - finishes the script with the uninterrupted run's facts and answers every earlier envelope as a duplicate without appending. A failing store call leaves facts and in-memory renderings unchanged and the directory it leaves recovers the same way.",
+         "Crash model: segment = byte prefix, side files = old or new version. Facts produced after a recovery are compared modulo the volatile runtime cycle stamp (a pass that commits nothing advances it in memory only). Multi-worldline ticks are refused by the filesystem WAL and end a workload.",
+         "DESIGN.md §4 C10"),
+ "C11": ("fault_enumeration",
+         "systematic mutation of logs produced by real-host workloads (sampled bit flips / byte overwrites / aligned zeroing; record- and transaction-level deletion, duplication, swap and cross-log transplant through the harness's own framing parser; side-file bit flips; every single bit of small logs) against three readers (byte-level, filesystem + doctor, fresh host); oracle = typed error or transaction-by-transaction, frame-by-frame prefix of the committed history, plus acknowledged facts for an activating host",
+         "Each reader must refuse a damaged log with a typed error or return a history that is exactly a prefix of what was committed; a host that activates must hold exactly the facts acknowledged at that prefix; no reader may panic. Two findings at the generic readers (no verification of the previous-commit digest, no genesis anchor: leading-transaction removal and chain-breaking splices are accepted) are listed in known_findings.json and excluded by signature; the host-level consumer and the duplicate-marker / orphaned-frames cases were repaired upstream.",
+         "Transplants that lawfully chain to a transaction of the target log (the two runs share that prefix) and whole-log replacement produce valid logs of another run and are not mutants.",
+         "DESIGN.md §4 C11"),
  "C15": ("exploration",
          "property-based testing over generated fork/tick/settle histories driven through the real runtime (fork_strand, super_tick, SettlementService): prefix-equality and basis-pinning oracle at every fork, fault injection by invalid fork requests and by pre-binding the plan's plural id (rollback fingerprint oracle), lane isolation as a metamorphic relation (drop one lane class's submissions, compare the other lanes' hash chains), plan purity/determinism, reference slot-set classification of parent movement, per-decision slot-value oracles (import takes the strand's values, retained artifacts leave the root unchanged, no parent-written slot changes), parent replays from U0",
          "One or two strands (incl. chains, AuthorOnly strands, support pins) are forked at generated ticks from generated histories and ticked interleaved with their parents by the ordinary scheduler; every strand is compared, planned and settled under both plural policies. Fork copies exactly the prefix and pins the recorded commit with fresh heads; invalid forks and failed settlements change nothing observable; neither lane class influences the other's per-tick roots, commit ids and patch digests; planning is pure and deterministic; clean suffixes on unmoved or disjointly moved parents are fully imported; imports give the parent the strand's values on the slots its ops wrote; conflict/plural entries leave the parent state unchanged and block later imports; no slot the parent wrote since the anchor changes value; the parent stays replayable to its live state.",
